@@ -33,7 +33,7 @@ RULE = (
 ASSUMPTIONS = ["links never point to other links and never traverse a link (chains/cycles not asserted)",
                "special files and permission bits not asserted"]
 REQUIRED_CLASSES = {"all": ["symlink_and_empty_dir", "edit_retarget_equal_content", "edit_file_to_link", "outside_link",
-                            "chunked_stream", "edit_content_byte", "sha512"]}
+                            "chunked_stream", "edit_content_byte", "sha512", "in_place_edit_same_mtime"]}
 BUDGET_S = {"quick": 600, "thorough": 3600}
 
 
@@ -67,6 +67,29 @@ def check_tree(tree, key, rec=None, edits=()):
                 raise Violation("C19:differs-from-model:sha512", h5, "sha512 digests")
             classes.append("sha512")
         flat = D.flatten(tree)
+        # the same path hashed again after an in-place edit that keeps size and (restored) mtime: results must not
+        # depend on timestamps or on anything remembered from an earlier call
+        files = sorted(p for p, e in flat.items() if e[0] == "f" and e[1])
+        if files:
+            fp = files[key % len(files)]
+            full = os.path.join(a, fp)
+            st_ = os.stat(full)
+            data = bytearray(open(full, "rb").read())
+            data[key % len(data)] ^= 0x5A
+            with open(full, "r+b") as fh:
+                fh.write(bytes(data))
+            os.utime(full, ns=(st_.st_atime_ns, st_.st_mtime_ns))
+            t_edit = copy.deepcopy(tree)
+            node = t_edit
+            segs = fp.split("/")
+            for sg in segs[:-1]:
+                node = node[sg][1]
+            node[segs[-1]] = ["f", bytes(data).hex()]
+            h_edit = compute(a)
+            if h_edit != D.expected_hashsums(t_edit):
+                raise Violation("C19:stale-after-in-place-edit", f"file {fp} edited in place (same size, same mtime): result unchanged or wrong",
+                                "hashsum of the new bytes")
+            classes.append("in_place_edit_same_mtime")
         has_link = any(e[0] == "l" for e in flat.values())
         has_empty = any(e[0] == "d" and not e[1] for e in flat.values())
         if has_link and has_empty:
